@@ -29,6 +29,9 @@ func main() {
 	preempt := fs.Int("preempt", -1, "preemption bound override")
 	verbose := fs.Bool("v", false, "verbose")
 	all := fs.Bool("all", false, "do not stop at the first violation")
+	maxpaths := fs.Int("maxpaths", 0, "path budget override")
+	delays := fs.Int("delays", -1, "delay bound override")
+	nosum := fs.Bool("nosum", false, "disable callee summarisation")
 	fs.Parse(os.Args[2:])
 	args := fs.Args()
 	switch cmd {
@@ -48,6 +51,13 @@ func main() {
 			cfg.Preempt = *preempt
 		}
 		cfg.StopOnFirst = !*all
+		cfg.Summarize = !*nosum
+		if *delays >= 0 {
+			cfg.Delays = *delays
+		}
+		if *maxpaths > 0 {
+			cfg.MaxPaths = *maxpaths
+		}
 		eng := newEngine(P, cfg)
 		pkgPath := modulePath
 		if d := harnessDirs[args[0]]; d != "." && d != "" {
@@ -86,11 +96,15 @@ func printResult(res *HarnessResult, verbose bool) {
 		res.Name, res.Paths, res.Infeasible, res.Obligations, res.Trivial, len(res.Violations), res.Wall.Seconds())
 	fmt.Printf("  solver: sat=%d unsat=%d unknown=%d errors=%d time=%.2fs  steps=%d maxvisits=%d threads<=%d schedpoints=%d\n",
 		res.Stats.Sat, res.Stats.Unsat, res.Stats.Unknown, res.Stats.Errors, res.Stats.Time.Seconds(), res.Steps, res.MaxVisits, res.MaxThreads, res.SchedPoints)
+	fmt.Printf("  summarized calls=%d pruned=%d literal-cache hits=%d\n", res.Summarized, res.Pruned, res.CacheHits)
 	if len(res.Reach) > 0 {
 		fmt.Printf("  reach: %v\n", res.Reach)
 	}
 	for _, s := range sortedCounts(res.Aborts) {
 		fmt.Printf("  ABORT: %s\n", s)
+	}
+	if res.Budget {
+		fmt.Printf("  BUDGET: path budget exhausted\n")
 	}
 	for _, s := range sortedCounts(res.Unwinds) {
 		fmt.Printf("  UNWIND: %s\n", s)
@@ -105,6 +119,9 @@ func printResult(res *HarnessResult, verbose bool) {
 		fmt.Printf("  VIOLATION: %s\n    model=%v\n    sched=%v trace=%v\n", v.What, v.Model, v.Sched, v.Trace)
 	}
 	if verbose {
+		for _, s := range sortedCounts(res.ForkSites) {
+			fmt.Printf("  fork: %s\n", s)
+		}
 		var fns []string
 		for f := range res.Entered {
 			fns = append(fns, f)
